@@ -24,22 +24,24 @@ PLANS = {
                 ("tagged-cli-sim", "tagged", 3, 0, 0, 1500, "plain"), ("tagged-hap-cli-sim", "tagged", 3, 0, 0, 2000, "hap"), ("tagged-hap3-cli-sim", "tagged", 3, 0, 0, 2000, "hap3")],
     },
     "thorough": {
-        "C01": [("valid", "valid", 2, 8, 0, 25000), ("perturbed", "perturb", 1, 4, 2, 12000), ("valid-sim", "valid", 5, 4, 0, 8000),
-                ("valid-sim", "valid", 4, 3, 0, 2400, "plain", [(100, 1)]), ("valid-cli", "valid", 2, 6, 0, 6000), ("perturbed-cli", "perturb", 1, 3, 1, 3000),
-                ("valid-hap-cli", "valid", 2, 4, 0, 4000, "hap"), ("tagged-hap3-cli", "tagged", 3, 0, 0, 5000, "hap3"), ("tagperturb-hap-cli-sim", "tagperturb", 3, 1, 1, 5000, "hap")],
-        "C02": [("valid", "valid", 2, 10, 0, 30000), ("valid-sim", "valid", 5, 4, 0, 12000), ("valid-sim", "valid", 4, 3, 0, 2400, "plain", [(100, 1)]),
-                ("valid-cli", "valid", 2, 6, 0, 6000)],
-        "C07": [("valid", "valid", 2, 10, 0, 30000), ("perturbed", "perturb", 1, 2, 1, 8000), ("valid-sim", "valid", 4, 3, 0, 2400, "plain", [(100, 1)]),
-                ("valid-cli", "valid", 2, 6, 0, 6000), ("tagged-hap3-cli", "tagged", 3, 0, 0, 5000, "hap3")],
+        "C01": [("valid", "valid", 2, 8, 0, 12000), ("perturbed", "perturb", 1, 4, 2, 6000), ("valid-sim", "valid", 5, 4, 0, 8000),
+                ("valid-sim", "valid", 4, 3, 0, 2400, "plain", [(100, 1)]), ("valid-cli-sim", "valid", 3, 6, 0, 5000), ("perturbed-cli-sim", "perturb", 2, 3, 1, 3000),
+                ("valid-hap-cli-sim", "valid", 3, 4, 0, 4000, "hap"), ("tagged-hap3-cli-sim", "tagged", 3, 1, 0, 5000, "hap3"), ("tagperturb-hap-cli-sim", "tagperturb", 3, 1, 1, 5000, "hap")],
+        "C02": [("valid", "valid", 2, 10, 0, 12000), ("valid-sim", "valid", 5, 4, 0, 12000), ("valid-sim", "valid", 4, 3, 0, 2400, "plain", [(100, 1)]),
+                ("valid-cli-sim", "valid", 3, 6, 0, 5000)],
+        "C07": [("valid", "valid", 2, 10, 0, 12000), ("perturbed", "perturb", 1, 2, 1, 5000), ("valid-sim", "valid", 4, 3, 0, 2400, "plain", [(100, 1)]),
+                ("valid-cli-sim", "valid", 3, 6, 0, 5000), ("tagged-hap3-cli-sim", "tagged", 3, 1, 0, 5000, "hap3")],
         "C08": [("null", "null", 0, 3000, 0, None)],
-        "C11": [("valid", "valid", 2, 10, 0, 30000), ("valid-sim", "valid", 5, 4, 0, 10000), ("valid-sim", "valid", 4, 3, 0, 2400, "plain", [(100, 1)]),
-                ("valid-cli", "valid", 2, 6, 0, 8000), ("valid-hap-cli", "valid", 2, 4, 0, 6000, "hap"), ("tagged-hap-cli-sim", "tagged", 3, 3, 0, 8000, "hap"), ("tagged-hap3-cli", "tagged", 3, 0, 0, 5000, "hap3"),
-                ("tagperturb-hap-cli-sim", "tagperturb", 3, 1, 1, 5000, "hap")],
-        "C09": [("tagged", "tagged", 3, 2, 0, 20000, "plain"), ("tagged-hap", "tagged", 3, 2, 0, 20000, "hap"), ("tagged4", "tagged", 4, 0, 0, 12000, "hap"),
-                ("tagged-hap3", "tagged", 3, 0, 0, 12000, "hap3"), ("tagged-trio", "tagged", 3, 0, 0, 12000, "trio"), ("tagged-trio-cli-sim", "tagged", 3, 0, 0, 6000, "trio"),
-                ("tagged-cli", "tagged", 3, 1, 0, 8000, "plain"), ("tagged-hap-cli", "tagged", 3, 1, 0, 8000, "hap"), ("tagged-hap3-cli", "tagged", 3, 0, 0, 8000, "hap3")],
+        "C11": [("valid", "valid", 2, 10, 0, 12000), ("valid-sim", "valid", 5, 4, 0, 10000), ("valid-sim", "valid", 4, 3, 0, 2400, "plain", [(100, 1)]),
+                ("valid-cli-sim", "valid", 3, 6, 0, 6000), ("valid-hap-cli-sim", "valid", 3, 4, 0, 5000, "hap"), ("tagged-hap-cli-sim", "tagged", 3, 3, 0, 8000, "hap"),
+                ("tagged-hap3-cli-sim", "tagged", 3, 1, 0, 5000, "hap3"), ("tagperturb-hap-cli-sim", "tagperturb", 3, 1, 1, 5000, "hap")],
+        "C09": [("tagged", "tagged", 3, 1, 0, 10000, "plain"), ("tagged-hap", "tagged", 3, 1, 0, 10000, "hap"), ("tagged-hap3", "tagged", 3, 0, 0, 10000, "hap3"),
+                ("tagged4-sim", "tagged", 4, 1, 0, 10000, "hap"), ("tagged-trio-sim", "tagged", 3, 1, 0, 8000, "trio"), ("tagged-trio-cli-sim", "tagged", 3, 0, 0, 5000, "trio"),
+                ("tagged-cli-sim", "tagged", 3, 1, 0, 6000, "plain"), ("tagged-hap-cli-sim", "tagged", 3, 1, 0, 6000, "hap"), ("tagged-hap3-cli-sim", "tagged", 3, 1, 0, 6000, "hap3")],
     },
 }
+# thorough tier: the exhaustive tagged state graphs are exported for four texel sizes, everything else for all eight
+T4 = [(2, 1), (3, 2), (5, 3), (5, 1)]
 TEXT = {
     "C01": "C01 conservation", "C02": "C02 layout within three texel widths", "C07": "C07 joins carry gaps",
     "C08": "C08 unedited map is the identity", "C11": "C11 curation statistics", "C09": "C09 tag routing",
@@ -73,7 +75,8 @@ def main_for(pid, tier, replay=None):
     for plan in PLANS[tier][pid]:
         (label, mode, maxedits, nrandom, maxperturb, cap), style = plan[:6], (plan[6] if len(plan) > 6 else "plain")
         # (quick tier: the exhaustive state graphs are exported for 2/1, 3/2, 5/1; the simulated classes and the null maps also for 5/3)
-        for tn, td in (plan[7] if len(plan) > 7 else R.TEXELS[tier] if tier == "thorough" or label.endswith("-sim") or mode == "null" else [x for x in R.TEXELS[tier] if x != (5, 3)]):
+        for tn, td in (plan[7] if len(plan) > 7 else (T4 if mode in ("tagged", "tagperturb") else R.TEXELS[tier]) if tier == "thorough"
+                       else R.TEXELS[tier] if label.endswith("-sim") or mode == "null" else [x for x in R.TEXELS[tier] if x != (5, 3)]):
             keep = (lambda o: o["valid"] == 0) if mode in ("perturb", "tagperturb") else None
             # "-sim" classes: random edit scripts of up to maxedits gestures (TLC simulation mode, seeded) instead of the exhaustive state graph
             sim = (f"num={max(50, cap // 80)}" if label == "valid-sim" else f"num={max(50, cap // 20)}") if label.endswith("-sim") else None
